@@ -16,6 +16,10 @@ def run(ctx):
         sh += zoorun.make_shards(ctx, stacks, "zapi::drive_c15<{Z}>();", "programs", flavour=fl, extra_include="zoo_api.hpp", with_partners=True,
                                  primary=prim, per_shard=max(3, (len(stacks) + 11) // 12))
         sh.append(dict(name="histories/%s" % fl, src=hist, flavour=fl, defines=["SH_RANDOM", "SH_DIGEST"], primary=prim))
+        # (c) 8-/16-bit coordinate types over their full range (the C01 part (c) workload): the library's own bounds
+        # assertions compare coordinates with extents and must not reject (or mis-evaluate on) in-domain calls
+        sh.append(dict(name="full-range-narrow-coordinates/%s" % fl, src=os.path.join(core.HARNESS, "c01_storage.cpp"), flavour=fl,
+                       defines=["SH_STRIDED", "SH_MORTON", "SH_HILBERT", "SH_NARROW"], primary=False))
     runs = ctx.run_shards(sh, timeout=7200)
     # result digests must agree across the whole build matrix
     digests = {}
@@ -37,7 +41,8 @@ def run(ctx):
         rule=("programs: (a) one per generated stack (gen/zoo.py seed offset 6000 + the conversion family): construct from a pack, fill, ~80 proposed "
               "lookups filtered to the documented domain by the reference interpreter, copy-construct, copy-assign, move-construct, dump, load, "
               "move-assign, convert from a compatible stack, with lookups after each step; (b) seeded random ownership histories (the C12 workload: "
-              "construction, write, copy, assignment incl. self, conversion, dump+load, destroy; 120 operations each).  Every program runs under the "
+              "construction, write, copy, assignment incl. self, conversion, dump+load, destroy; 120 operations each); (c) storage-order layers with 8- and 16-bit coordinate types used over their full range (axis extent "
+              "2^bits: every coordinate is valid, the extent is not representable in the coordinate type), every cell written and read back.  Every program runs under the "
               "property's own matrix {-O1 assertions on, -O2 NDEBUG} x ASan+UBSan(+float-cast-overflow, LSan) and {-O0 assertions on, -O2 NDEBUG} x "
               "valgrind memcheck with identical seeds; any sanitizer report, library assertion or memcheck error is a violation, and the "
               "digest of every value read (and of the dump bytes) must be identical in all four.  distinct_nontrivial = number of distinct "
